@@ -10,6 +10,7 @@ from . import bootstrap  # noqa: F401
 from . import instrument as ins
 from .core import digest_of, HarnessError
 from .model import LinkModel, ModelRefuse, Unknown, any_close, BUFFERING, F, UNIT_TABLE, convert
+from . import timebase
 from .world import dt, td, tick, make_adapter, mag
 
 import numpy as np
@@ -285,7 +286,7 @@ def run_e3(sc, scratch=None):
                     # differences of large products; unit conversion rescales everything)
                     span = 1.0
                     if any(a["kind"] == "sum" and a.get("per_time", True) for a in sc["consumers"][ci]["chain"]):
-                        span = max(1.0, float(rig.pubs[-1][0] - rig.pubs[0][0]) * 3600.0)
+                        span = max(1.0, float(rig.pubs[-1][0] - rig.pubs[0][0]) * float(timebase.tick_seconds()))
                     vmax = max([abs(p[1]) for p in rig.pubs] + [1.0]) + (float(np.max(np.abs(rig.base))) if rig.base is not None else 0.0)
                     scl = abs(convert(1.0, ou, cu) - convert(0.0, ou, cu)) if cu else 1.0
                     atol = 1e-9 * vmax * span * abs(f) * scl * 4.0 + 1e-12
@@ -404,7 +405,7 @@ GAPS = [1, 2, 3, 5, 8, 1, 2, 30, 49]      # hours; some gaps are longer than a d
 
 
 def gen_events(tape, n_cons, n_events, *, strictly_increasing=None, out_of_range=True, halves=True,
-               first_push=True, future_chance=(1, 12), refused_future_keeps_last=False, burst=None):
+               first_push=True, future_chance=(1, 12), refused_future_keeps_last=False, burst=None, step_pos=()):
     """interleaving of pushes (increasing times) and per-consumer pulls (non-decreasing times)"""
     strictly_increasing = strictly_increasing or [False] * n_cons
     events = []
@@ -427,7 +428,9 @@ def gen_events(tape, n_cons, n_events, *, strictly_increasing=None, out_of_range
             after_burst = set(range(n_cons))
         if tape.chance(9, 20) or not pubs:
             if pubs:
-                tpush = tpush + tape.choice(GAPS)
+                # (with step adapters on the link: now and then an interval of ten or thirty days, so that a second is a
+                # few millionths of it)
+                tpush = tpush + tape.choice(GAPS + ([240, 721] if step_pos else []))
             val = val + tape.choice([1, 3, -2, 10, 0.5, 0, 0, 0])      # also stretches of equal publications
             events.append(["PUSH", tpush, val])
             pubs.append(tpush)
@@ -439,7 +442,8 @@ def gen_events(tape, n_cons, n_events, *, strictly_increasing=None, out_of_range
                 if out_of_range and tape.chance(1, 15):
                     events.append(["PULL", ci, pubs[0] - tape.choice([1, 2])])
                     continue
-            mode = tape.weighted([("step", 6), ("same", 2), ("newest", 3), ("mid", 3), ("pub", 3), ("future", 1), ("near", 1)])
+            mode = tape.weighted([("step", 6), ("same", 2), ("newest", 3), ("mid", 3), ("pub", 3), ("future", 1), ("near", 1)]
+                                 + ([("near_step", 3)] if step_pos else []))
             if ci in after_burst:
                 # the first request after the row: the oldest entry again, or a small step into the long buffer
                 after_burst.discard(ci)
@@ -462,6 +466,13 @@ def gen_events(tape, n_cons, n_events, *, strictly_increasing=None, out_of_range
                 # the gap is longer than a day)
                 cand = [q for p in pubs for q in (Fraction(p) - Fraction(1, 3600), Fraction(p) + Fraction(1, 3600))
                         if q >= lo and pubs[0] <= q <= pubs[-1]]
+                t = tape.choice(cand) if cand and halves else lo
+            elif mode == "near_step":
+                # exactly on / one second before / one second after the position inside an interval at which a step
+                # adapter switches to the newer value
+                cand = [Fraction(a) + Fraction(sp) * (b - a) + d for a, b in zip(pubs, pubs[1:]) for sp in step_pos
+                        for d in (0, Fraction(1, 3600), -Fraction(1, 3600))]
+                cand = [q for q in cand if q >= lo and pubs[0] <= q <= pubs[-1] and (Fraction(q) * 3600).denominator == 1]
                 t = tape.choice(cand) if cand and halves else lo
             elif mode == "future":
                 if not (out_of_range and tape.chance(*future_chance)):
